@@ -1221,6 +1221,196 @@ def absorb_rename(res, rec):
         res.violation(scn, f"{sig['clause']}: {detail}", signature=sig, impl=rec['obs'])
 
 # --------------------------------------------------------------------------
+# every call the step makes is a fault point (family `stepfault`)
+# --------------------------------------------------------------------------
+
+def step_fault_monitor(scn, obs):
+    """C15 from the property text, for ONE fault at a call the traced run of the step was seen to make:
+    * the source path at every instant holds the complete original or the complete new content (read after every
+      traced call, at the fault and at the end);
+    * a rewrite that fails by raising leaves no temporary or partial file behind in the directory;
+    * a rewrite that reports success leaves what the fault-free run leaves;
+    * files not matched by `in` stay as they were; the step returns."""
+    out = []
+    at = scn['sf']['at']
+    recs = obs['records']
+    end = obs['outcome']['end']
+    sig = {'site': 'step', 'family': 'stepfault', 'step': scn['step'], 'call': at['name'], 'mode': at['mode']}
+    srcs = list(scn['matched'])
+    orig = {s: obs['before'].get(s) for s in srcs}
+    new = {s: obs['ref_after'].get(s) for s in srcs}
+    where_fault = f"{at['mode']} injected at call #{at['ord']} of {at['name']}"
+
+    def what(s, hx):
+        return ('the complete original' if hx == orig[s] else 'the complete new content' if hx == new[s]
+                else 'nothing (absent)' if hx is None
+                else f'NEITHER ({len(hx) // 2} bytes; original {len(orig[s] or "") // 2}, new {len(new[s] or "") // 2})')
+    done = False
+    for r in recs:
+        for s, hx in (r.get('src') or {}).items():
+            if s in orig and hx not in (orig[s], new[s]):
+                where = ('at the injected fault' if 'fault' in r else f"after call {r.get('call')}#{r.get('ord')}")
+                out.append((dict(sig, clause='srcWhole'), f"{where_fault}: {where} the source {s} holds {what(s, hx)}"))
+                done = True
+                break
+        if done:
+            break
+    final_bad = [s for s in srcs if obs['after'].get(s) not in (orig[s], new[s])]
+    if final_bad and end in ('ok', 'raised', 'killed'):
+        s = final_bad[0]
+        out.append((dict(sig, clause='srcWholeAtEnd'), f"{where_fault}: the step ended {end} and the source {s} holds {what(s, obs['after'].get(s))}"))
+    if end == 'raised' and obs['names_after'] != obs['names_before']:
+        extra = sorted(set(obs['names_after']) ^ set(obs['names_before']))
+        out.append((dict(sig, clause='noExtra'),
+                    f"{where_fault}: the rewrite raised ({obs['outcome'].get('exc')}) and the directory entries changed: {extra} "
+                    f"(a file the rewrite made stays behind)"))
+    elif end == 'ok' and obs['names_after'] != obs['names_before']:
+        # (a fault the library swallows - glob's lstat, os.path.isfile - may leave the source unrewritten: old content, fine)
+        extra = sorted(set(obs['names_after']) ^ set(obs['names_before']))
+        out.append((dict(sig, clause='okSameEntries'),
+                    f"{where_fault}: the step reported success and the directory entries changed: {extra}"))
+    elif end in ('timeout', 'child-crashed'):
+        out.append((dict(sig, clause='terminates'), f"{where_fault}: the step ended {obs['outcome']}"))
+    others = sorted(k for k, v in obs['after'].items() if k not in srcs and k in obs['before'] and v != obs['before'][k])
+    if others:
+        out.append((dict(sig, clause='unmatchedSame'), f"{where_fault}: files not matched by in changed: {others}"))
+    return out
+
+
+def run_step_fault_case(scn):
+    obs = I.observe_step_fault(scn)
+    recs = obs['records']
+    calls = [[r['call'], r['ord']] for r in recs if 'call' in r and 'ord' in r]
+    rec = {'case': scn, 'ref_ok': obs['ref_ok'], 'calls': calls, 'fired': any('fault' in r for r in recs),
+           'obs': {'outcome': obs['outcome'], 'calls': calls, 'names_after': obs['names_after'],
+                   'records': [{k: v for k, v in r.items() if k != 'src'} for r in recs][:40]},
+           'violations': []}
+    if scn['sf'].get('at'):
+        rec['violations'] = step_fault_monitor(scn, obs)
+    else:
+        rec['trace_same'] = obs['after'] == obs['ref_after'] and obs['outcome'].get('end') == 'ok'
+    return rec
+
+
+def guarded_step_fault_case(scn):
+    try:
+        with time_limit(CASE_TIMEOUT):
+            return run_step_fault_case(scn)
+    except (common.Infra, KeyboardInterrupt):
+        raise
+    except CaseTimeout as e:
+        return {'case': scn, 'timeout': str(e)}
+    except BaseException as e:   # noqa: BLE001
+        import traceback
+        return {'case': scn, 'error': ''.join(traceback.format_exception_only(type(e), e)).strip() + ' @ ' + traceback.format_exc()[-500:]}
+
+
+def _step_fault_worker(scn):
+    common.use_repo()
+    return guarded_step_fault_case(scn)
+
+
+def _step_fault_run_all(scns, workers):
+    if workers <= 1 or len(scns) < 8:
+        return [guarded_step_fault_case(s) for s in scns]
+    import multiprocessing as mp
+    with mp.get_context('fork').Pool(workers) as pool:
+        return pool.map(_step_fault_worker, scns, chunksize=4)
+
+
+# /repo candidate (reported to main, undecided): is_same_file asks os.path.isfile, which turns EVERY OSError of stat(2)
+# into False: one failing stat on `out` or `in` and out == in (spelled differently) is taken for another file - the
+# step opens the source for writing while reading it (source truncated, step reports success). Counted, listed in
+# extra.candidate_findings; a violation only when this is True.
+REPORT_SAMEFILE_STAT_SWALLOWED = False
+SAMEFILE_SIG = {'site': 'is_same_file', 'cause': 'stat-fault-swallowed-by-isfile'}
+
+
+def samefile_stat_swallowed(scn, rec):
+    at = scn['sf'].get('at') or {}
+    fault = next((r for r in rec['obs']['records'] if 'fault' in r), {})
+    return (at.get('name') == 'os.stat' and at.get('mode', '').startswith('raise') and 'is_same_file' in (fault.get('within') or [])
+            and rec['obs']['outcome'].get('end') == 'ok' and (scn.get('out') or {}).get('kind') == 'same')
+
+
+PURE_CALLS = ('os.fspath', 'os.fsencode', 'os.fsdecode', 'os.getcwd', 'os.getpid', 'os.strerror')
+
+
+def step_fault_scenarios(quick):
+    keep = ('single-3', 'same-dotslash', 'relative') if quick else \
+        ('single-1', 'single-3', 'list-2', 'same-dotslash', 'same-updir', 'relative', 'relative-sub', 'glob-3')
+    return [dict(copy.deepcopy(b), family='stepfault') for b in base_scenarios(quick) if b['layout'] in keep]
+
+
+def check_step_faults(env, res, workers=1):
+    """Stage 1: the step is run once per scenario with every public function of os / shutil and open traced (calls that
+    mention a path under the scratch root or a descriptor opened there): the trace IS the fault plan. Stage 2: one run
+    per traced call (function, ordinal) x {PermissionError(EPERM), OSError(ENOSPC), death before the call} on a fresh
+    copy of the files."""
+    scns = step_fault_scenarios(env.quick)
+    stage1 = [dict(b, sf={'at': None}) for b in scns]
+    stage2 = []
+    seen_calls = {}
+    for rec in _step_fault_run_all(stage1, workers):
+        absorb_step_fault(res, rec)
+        if rec.get('timeout') or rec.get('error'):
+            continue
+        if not rec.get('trace_same'):
+            res.mismatch(rec['case'], {'traced run': 'as the untraced run'}, {'traced run': rec['obs']['outcome'], 'calls': rec['calls']},
+                         'the traced, fault-free run of the step did not give what the untraced run gives')
+            continue
+        if not any(c[0] in ('os.replace', 'os.rename') for c in rec['calls']):
+            res.mismatch(rec['case'], {'final step': 'os.replace / os.rename'}, {'calls': rec['calls']},
+                         'an in-place rewrite was traced without a rename: the model ends in a rename')
+        for name, n in rec['calls']:
+            seen_calls[name] = seen_calls.get(name, 0) + 1
+            modes = list(I.STEP_FAULT_MODES)
+            if name in PURE_CALLS:
+                # no system call behind these: one raise each in thorough, every third in quick
+                modes = ['raise-os'] if (not env.quick or n % 3 == 0) else []
+            for m in modes:
+                stage2.append(dict(rec['case'], sf={'at': {'name': name, 'ord': n, 'mode': m}}))
+    res.extra['step_fault_calls_traced'] = seen_calls
+    res.extra['step_fault_cases'] = [len(stage1), len(stage2)]
+    for rec in _step_fault_run_all(stage2, workers):
+        absorb_step_fault(res, rec)
+
+
+def absorb_step_fault(res, rec):
+    scn = rec['case']
+    at = scn['sf'].get('at')
+    res.case(scn, nontrivial=bool(at))
+    res.count('stepfault')
+    res.count('stepfault:step:' + scn['step'])
+    if at:
+        res.count('stepfault:at:' + at['name'] + ':' + at['mode'])
+    if rec.get('timeout'):
+        res.violation(scn, f"the step did not return ({'fault at ' + at['name'] if at else 'traced run'}): {rec['timeout']}",
+                      signature={'site': 'step', 'family': 'stepfault', 'step': scn['step'], 'clause': 'terminates'}, impl={'end': 'timeout'})
+        return
+    if rec.get('error'):
+        res.mismatch(scn, None, {'harness error': rec['error']}, 'harness error in the stepfault family')
+        return
+    res.count('stepfault:end:' + str(rec['obs']['outcome'].get('end')))
+    if not rec['ref_ok']:
+        res.mismatch(scn, {'reference run': 'ok'}, {'reference run': 'failed'}, 'the fault-free reference run failed')
+    if at and not rec['fired']:
+        res.mismatch(scn, {'call reached': at}, {'calls': rec['calls'], 'end': rec['obs']['outcome']},
+                     'a call seen in the traced run was not reached in the run that was to fault it: the step is not a function of its inputs')
+    vs = rec['violations'][:3]
+    if vs and samefile_stat_swallowed(scn, rec) and all(sig['clause'] in ('srcWhole', 'srcWholeAtEnd') for sig, _ in vs):
+        res.count('stepfault:candidate:' + SAMEFILE_SIG['cause'])
+        if len(res.extra.setdefault('candidate_findings', [])) < 4:
+            res.extra['candidate_findings'].append({'signature': SAMEFILE_SIG, 'step': scn['step'], 'layout': scn['layout'],
+                                                   'at': scn['sf']['at'], 'detail': vs[0][1]})
+        if not REPORT_SAMEFILE_STAT_SWALLOWED:
+            return
+        vs = [(dict(sig, **SAMEFILE_SIG), d) for sig, d in vs]
+    for sig, detail in vs:
+        res.violation(scn, f"{sig['clause']}: {detail}", signature=sig, impl=rec['obs'])
+
+
+# --------------------------------------------------------------------------
 # sharded execution
 # --------------------------------------------------------------------------
 
@@ -1276,7 +1466,7 @@ def run(env, res):
                 '= job 1 in place, job 2 a direct write onto job 1 source; and the disjoint control). in itself a symlink: modelled '
                 '(the link entry is replaced). The error that reaches the caller is compared by kind (Exception vs BaseException). '
                 'File modes before/after a successful in-place rewrite are counted (extra.mode_after_inplace). A case that does not return within the time limit is a '
-                'violation (terminates; limit 30 s, after repeated time-outs in one worker 5 s, then the rest is skipped). non-trivial = a case with a fault')
+                'violation (terminates; limit 30 s, after repeated time-outs in one worker 5 s, then the rest is skipped). Stepfault family: the in-place layouts are run once with every public function of os / shutil and open traced (calls on paths / descriptors under the scratch root, import-time aliases in pypyr modules included); the trace is the fault plan: one run per (function, ordinal) x {PermissionError, OSError, death before the call}; the sources are read after every traced call. non-trivial = a case with a fault')
     workers = env.n(8, 14)
     bases = base_scenarios(env.quick)
     # phase 1: every base scenario fault-free (also yields the number of writes per file)
@@ -1351,6 +1541,8 @@ def run(env, res):
         absorb(res, r)
     # phase 3: the fault space of the final rename
     check_rename_faults(env, res, workers)
+    # phase 4: every os / shutil / open call of the whole step as a fault point, the plan read off a traced run
+    check_step_faults(env, res, workers)
     res.extra['base_scenarios'] = len(bases)
     res.extra['fault_plans'] = len(cases)
     res.extra['mode_after_inplace'] = {k.split(':', 1)[1]: v for k, v in res.distribution.items()
@@ -1366,6 +1558,11 @@ def replay(env, res, payload):
     if scn.get('family') == 'renamefault' and scn.get('rf'):
         rec = guarded_rename_case(scn)
         absorb_rename(res, rec)
+        res.extra['replayed'] = rec.get('obs')
+        return
+    if scn.get('family') == 'stepfault' and scn.get('sf'):
+        rec = guarded_step_fault_case(scn)
+        absorb_step_fault(res, rec)
         res.extra['replayed'] = rec.get('obs')
         return
     absorb(res, guarded_case(env.driver, scn))
